@@ -10,6 +10,7 @@
                    or spelled Time / TIME): the named deviations of the current tree.  With
                    FixedStrip = TRUE (the proposed repair) there is no exemption.
      NoGrowthInv   from the second call on the condition does not grow
+     PrintFaithfulInv  printing the condition and parsing it back keeps its plain boolean reading
      NTAgree       the two readings of "non-time part" (tree / AST) agree on the initial condition
    G: the call that completes a history of MaxCalls windows emits it as one case.        *)
 EXTENDS SetRange, Alpha, Json, CSV, IOUtils
@@ -69,5 +70,8 @@ StepHoldsNow == LET o == Observe(cond) IN
                 o.err = "" /\ StepOK(o.lo, o.hi, o.rt, wins[Len(wins)], prevNT, HistGrid(init, wins))
 StepHolds == Called => (StepHoldsNow \/ (~FixedStrip /\ Unstrippable(init)))
 NoGrowthInv == (Called /\ Len(wins) >= 2) => NoGrowth(prevSize, Size(cond))
+\* the condition the statement holds prints to a text that denotes the same predicate (plain boolean
+\* reading) - before the first call and after every call
+PrintFaithfulInv == phase = "run" => PrintFaithful(cond, HistGrid(init, wins))
 NTAgree == (phase = "run" /\ wins = <<>>) => NTTableAst(cond) = NTTable(init)
 =============================================================================
